@@ -158,6 +158,39 @@ def cff_flex_font():
     fb.setupNameTable({"familyName": "GF", "styleName": "R"}); fb.setupOS2(); fb.setupPost()
     b = io.BytesIO(); fb.save(b); return b.getvalue()
 
+def cff_subr_font(rng):
+    """a CFF font whose global and local subroutine INDEXes fall in DIFFERENT bias bands (107 / 1131 / 32768 by count < 1240,
+    < 33900, more), with glyphs that call global subroutines, local ones, and global ones that call local ones"""
+    from fontTools.fontBuilder import FontBuilder
+    from fontTools.misc.psCharStrings import T2CharString
+    from fontTools.cffLib import SubrsIndex
+    ng, nl = rng.choice([(1300, 3), (5, 1300), (1239, 1240), (1240, 1239), (40, 7)])
+    bias = lambda n_: 107 if n_ < 1240 else 1131 if n_ < 33900 else 32768
+    fb = FontBuilder(1000, isTTF=False)
+    order = [".notdef"] + ["g%d" % i for i in range(8)]
+    fb.setupGlyphOrder(order); fb.setupCharacterMap({65 + i: n_ for i, n_ in enumerate(order[1:])})
+    chars = {".notdef": T2CharString(program=[500, 0, "hmoveto", "endchar"])}
+    picks_g = [0, 1, ng - 1, ng // 2] + [rng.below(ng) for _ in range(4)]
+    picks_l = [0, nl - 1, nl // 2] + [rng.below(nl) for _ in range(5)]
+    for i, n_ in enumerate(order[1:]):
+        prog = [10 + i, 20, "rmoveto", picks_g[i] - bias(ng), "callgsubr"]
+        if i % 2: prog += [picks_l[i] - bias(nl), "callsubr"]
+        prog += [-30, "hlineto", "endchar"]
+        chars[n_] = T2CharString(program=prog)
+    fb.setupCFF("GenSubr", {"FullName": "Gen Subr"}, chars, {"defaultWidthX": 500, "nominalWidthX": 0})
+    cff = fb.font["CFF "].cff; top = cff.topDictIndex[0]; private = top.Private
+    for gi in range(ng):
+        body = [gi % 97 + 1, (gi * 7) % 89 + 1, "rlineto"]
+        if gi % 5 == 0: body += [(gi % nl) - bias(nl), "callsubr"]              # a global subroutine calling a local one
+        cff.GlobalSubrs.append(T2CharString(program=body + ["return"], private=private, globalSubrs=cff.GlobalSubrs))
+    private.Subrs = SubrsIndex()
+    for li in range(nl):
+        private.Subrs.append(T2CharString(program=[-(li % 53) - 1, (li * 3) % 71 + 1, "rlineto", "return"], private=private, globalSubrs=cff.GlobalSubrs))
+    for cs_ in top.CharStrings.values(): cs_.private = private; cs_.globalSubrs = cff.GlobalSubrs
+    fb.setupHorizontalMetrics({n_: (500, 0) for n_ in order}); fb.setupHorizontalHeader(ascent=800, descent=-200)
+    fb.setupNameTable({"familyName": "GS", "styleName": "R"}); fb.setupOS2(); fb.setupPost()
+    b = io.BytesIO(); fb.save(b); return "generated-cff-subrs(%d global, %d local)" % (ng, nl), b.getvalue()
+
 def _flat(calls):
     """canonical geometry with float points; closed contours rotated; tolerant comparison is done by the caller"""
     # coordinates on a 1/1024 grid so that float noise cannot create spurious closing lines
@@ -198,6 +231,9 @@ def sweeps(tier, rng):
                 b = io.BytesIO(); f.save(b); yield "edited-private-vsindex:" + corpus.rel(p), b.getvalue()
             except Exception:
                 continue
+        for _k in range(2 if tier == "quick" else 12):
+            try: yield cff_subr_font(rng)
+            except Exception as e: yield "generated-cff-subrs(build failed %r)" % (e,), None
         for name, fn in (("generated-2axis-gvar", two_axis_font), ("generated-cff-flex", cff_flex_font)):
             try: yield name, fn()
             except Exception as e: yield name + "(build failed %r)" % (e,), None
